@@ -7,8 +7,6 @@ require (
 	pgregory.net/rapid v1.3.0
 )
 
-
-
 require (
 	capnproto.org/go/capnp/v3 v3.1.0-alpha.1
 	cloud.google.com/go/trace v1.11.6
@@ -131,6 +129,7 @@ require (
 	go.opentelemetry.io/collector/pdata v1.48.0
 	go.opentelemetry.io/collector/semconv v0.128.0
 	go.opentelemetry.io/proto/otlp v1.10.0
+	golang.org/x/sys v0.46.0
 )
 
 require github.com/dgryski/go-metro v0.0.0-20250106013310-edb8663e5e33 // indirect
@@ -316,7 +315,6 @@ require (
 	golang.org/x/exp v0.0.0-20250808145144-a408d31f581a // indirect
 	golang.org/x/mod v0.37.0 // indirect
 	golang.org/x/oauth2 v0.36.0 // indirect
-	golang.org/x/sys v0.46.0 // indirect
 	golang.org/x/telemetry v0.0.0-20260625142307-59b4966ccb57 // indirect
 	golang.org/x/tools v0.47.0 // indirect
 	gonum.org/v1/gonum v0.17.0 // indirect
@@ -327,7 +325,6 @@ require (
 )
 
 replace (
-	github.com/thanos-io/thanos => /repo
 
 	// Pinnning capnp due to https://github.com/thanos-io/thanos/issues/7944
 	capnproto.org/go/capnp/v3 => capnproto.org/go/capnp/v3 v3.0.0-alpha.30
@@ -338,6 +335,7 @@ replace (
 
 	// Pin kuberesolver/v5 to support new grpc version. Need to upgrade kuberesolver version on weaveworks/common.
 	github.com/sercand/kuberesolver/v4 => github.com/sercand/kuberesolver/v5 v5.1.1
+	github.com/thanos-io/thanos => /repo
 
 	github.com/vimeo/galaxycache => github.com/thanos-community/galaxycache v0.0.0-20211122094458-3a32041a1f1e
 
